@@ -4,10 +4,17 @@
    decoding is complete iff at least k distinct ESIs were submitted, and of_finish_decoding returns
    OK iff complete / FAILURE iff fewer than k.  The algebraic half (any k rows of the systematic
    Vandermonde generator are invertible, and the in-place Gauss-Jordan inversion finds the inverse)
-   enters as the hypothesis `core_ok`; it is established for the spec-level code in RSCode (when
-   present) and tied to the C by the exhaustive/sampled decode correspondence. *)
+   enters as the hypothesis `core_ok`.
+   MDS half, at the level of the canonical code (RSCanon.v: evaluation points 0, 1, x, x^2, ... of
+   GF(2)[x]/(x^8+x^4+x^3+x^2+1) resp. GF(2)[x]/(x^4+x+1), k sources at the first k points): for every
+   k <= n <= 2^m, ANY k distinct codeword positions determine the k source elements (two source
+   vectors that agree on k positions are equal), and the code is systematic.  The C encoders are tied
+   to this code by C06's correspondence; that the C decoders' in-place Gauss-Jordan inversion finds
+   this unique preimage is not a theorem: every decoded byte is compared with the encoded source on
+   the compiled C (every received subset of small codes, sampled subsets up to n = 255). *)
 From Coq Require Import Arith List Bool.
-From OFV Require Import ListAux RSApi RSApiProofs.
+From Coq Require Import NArith.
+From OFV Require Import ListAux RSApi RSApiProofs GF2Poly RSCanon.
 Import ListNotations.
 
 Theorem rs_complete_iff_k_distinct :
@@ -28,5 +35,30 @@ Theorem rs_finish_truthful :
   ((rs_is_complete (fst r) = true) <-> (k <= ndistinct n (map fst h))).
 Proof. exact rs_finish_truthful_proof. Qed.
 
+Theorem rs256_any_k_positions_determine_the_sources :
+  forall k src src', k <= 256 -> length src = k -> length src' = k ->
+  Forall (fun a => (a < 256)%N) src -> Forall (fun a => (a < 256)%N) src' ->
+  forall J : list nat, NoDup J -> length J = k -> (forall j, In j J -> j < 256) ->
+  (forall j, In j J -> elem256 k src j = elem256 k src' j) -> src = src'.
+Proof. exact elem256_mds. Qed.
+
+Theorem rs16_any_k_positions_determine_the_sources :
+  forall k src src', k <= 16 -> length src = k -> length src' = k ->
+  Forall (fun a => (a < 16)%N) src -> Forall (fun a => (a < 16)%N) src' ->
+  forall J : list nat, NoDup J -> length J = k -> (forall j, In j J -> j < 16) ->
+  (forall j, In j J -> elem16 k src j = elem16 k src' j) -> src = src'.
+Proof. exact elem16_mds. Qed.
+
+Theorem rs256_systematic :
+  forall k src j, k <= 256 -> length src = k -> Forall (fun a => (a < 256)%N) src -> j < k -> elem256 k src j = nth j src 0%N.
+Proof. exact elem256_systematic. Qed.
+
+Theorem rs16_systematic :
+  forall k src j, k <= 16 -> length src = k -> Forall (fun a => (a < 16)%N) src -> j < k -> elem16 k src j = nth j src 0%N.
+Proof. exact elem16_systematic. Qed.
+
 Print Assumptions rs_complete_iff_k_distinct.
+Print Assumptions rs256_any_k_positions_determine_the_sources.
+Print Assumptions rs16_any_k_positions_determine_the_sources.
+Print Assumptions rs256_systematic.
 Print Assumptions rs_finish_truthful.
